@@ -416,6 +416,7 @@ class Encoder:
             y = self._sqrtvar(base)
             p = int(exp.p)
             return self._pow_z3(y, p)
+        exp = sp.expand(exp)      # canonical form of the exponent: (nu - mu)/nu -> 1 - mu/nu
         # symbolic exponent: (prod f_i**k_i)**e = prod f_i**(k_i e) for positive factors
         if isinstance(base, (sp.Mul, sp.Pow)):
             factors = base.as_powers_dict()
